@@ -199,6 +199,53 @@ fn name_closure(which: &str, toks: &[T], def_markers: &[&[&str]], builtins: &[&s
 }
 
 /// Keys (string or identifier followed by ':') at depth 1 of the block that follows `start` tokens.
+/// Keys of the actor type that `public type Self` denotes in a Motoko binding:
+/// `Self = actor {..}`, `Self = (args) -> async actor {..}`, `Self = X` or
+/// `Self = (args) -> async X` with `type X = actor {..}`.
+fn motoko_self_keys(toks: &[T]) -> Option<Vec<String>> {
+    let toks = without_comments(toks);
+    let start = [T::Ident("type".into()), T::Ident("Self".into()), T::Punct('=')];
+    let pos = (0..toks.len()).find(|i| *i + 3 <= toks.len() && toks[*i..*i + 3] == start)?;
+    // the definition runs to the `;` or `}` that closes it at nesting depth 0
+    let mut depth = 0i32;
+    let mut end = pos + 3;
+    while end < toks.len() {
+        match &toks[end] {
+            T::Punct('{') | T::Punct('(') | T::Punct('[') => depth += 1,
+            T::Punct('}') | T::Punct(')') | T::Punct(']') => {
+                if depth == 0 {
+                    break;
+                }
+                depth -= 1;
+            }
+            T::Punct(';') if depth == 0 => break,
+            _ => {}
+        }
+        end += 1;
+    }
+    let body = &toks[pos + 3..end];
+    // last top-level `actor {` in the definition, if any
+    let mut depth = 0i32;
+    let mut actor_at = None;
+    for (i, t) in body.iter().enumerate() {
+        match t {
+            T::Punct('{') | T::Punct('(') | T::Punct('[') => depth += 1,
+            T::Punct('}') | T::Punct(')') | T::Punct(']') => depth -= 1,
+            T::Ident(a) if a == "actor" && depth == 0 && body.get(i + 1) == Some(&T::Punct('{')) => actor_at = Some(i),
+            _ => {}
+        }
+    }
+    if let Some(i) = actor_at {
+        let mut v = vec![T::Ident("type".into()), T::Ident("Self".into()), T::Punct('=')];
+        v.extend_from_slice(&body[..=i]);
+        return block_keys(&toks, &v);
+    }
+    match body.last() {
+        Some(T::Ident(x)) => block_keys(&toks, &[T::Ident("type".into()), T::Ident(x.clone()), T::Punct('='), T::Ident("actor".into())]),
+        _ => None,
+    }
+}
+
 fn block_keys(toks: &[T], start: &[T]) -> Option<Vec<String>> {
     let toks = without_comments(toks);
     let pos = (0..toks.len()).find(|i| *i + start.len() <= toks.len() && toks[*i..*i + start.len()] == *start)?;
@@ -376,13 +423,24 @@ impl Check for C19 {
                             None => block_keys(&ta, &[T::Ident("interface".into()), T::Ident("_SERVICE".into())]),
                         }
                     }
+                    "mo" => motoko_self_keys(&ta),
                     _ => None,
                 };
+                if which == "mo" && keys.is_none() {
+                    return Outcome::Fail(Failure::new(
+                        "mo:service-type-not-found",
+                        format!("no actor type reachable from `type Self`\n--- program ---\n{text_a}\n--- output ---\n{out_a}"),
+                    ));
+                }
                 if let Some(keys) = keys {
-                    let mut k = keys.clone();
-                    k.sort();
-                    let mut m = methods.clone();
-                    m.sort();
+                    // Motoko spells a method that is a keyword with a trailing underscore
+                    let norm = |v: &[String]| -> Vec<String> {
+                        let mut v: Vec<String> = v.iter().map(|s| if which == "mo" { s.strip_suffix('_').unwrap_or(s).to_string() } else { s.clone() }).collect();
+                        v.sort();
+                        v
+                    };
+                    let k = norm(&keys);
+                    let m = norm(&methods);
                     if k != m {
                         return Outcome::Fail(Failure::new(
                             format!("{which}:service-methods-differ"),
